@@ -213,7 +213,9 @@ FinalQ(a, e, l, ws) ==
         unblocked == ~e.wblocked["c"] /\ ~e.wblocked["s"]
         clean == \A ep \in DOMAIN ws : ~ws[ep].tainted
         \* C06: cooperating peer, nothing may be left pending
-        a1 == IF a.coop /\ bothAlive /\ unblocked /\ clean /\ ~a.panicked["c"] /\ ~a.panicked["s"]
+        noErr == \A ep \in DOMAIN ws : ~ws[ep].err
+        \* (connections that closed themselves cleanly count: by then everything must have completed)
+        a1 == IF a.coop /\ noErr /\ unblocked /\ clean /\ ~a.panicked["c"] /\ ~a.panicked["s"]
               THEN Check(a, "C06.progress", Len(e.out) = 0, l, "", 0, e.out)
               ELSE a
         \* C07: an ended connection leaves nothing pending on its endpoint
@@ -235,7 +237,7 @@ FinalQ(a, e, l, ws) ==
               ELSE a3
         \* C17: a reset / abandoned stream does not disturb the others
         others == {j \in 1..Len(e.out) : e.out[j].sid # 0 /\ e.out[j].sid \notin a.resetS /\ e.out[j].op # "poll_push"}
-        a5 == IF a.coop /\ bothAlive /\ unblocked /\ clean /\ a.resetS # {} /\ ~a.panicked["c"] /\ ~a.panicked["s"]
+        a5 == IF a.coop /\ noErr /\ unblocked /\ clean /\ a.resetS # {} /\ ~a.panicked["c"] /\ ~a.panicked["s"]
               THEN Check(a4, "C17.others_undisturbed", others = {}, l, "", 0, [j \in others |-> e.out[j]])
               ELSE a4
     IN a5
@@ -279,6 +281,9 @@ Step(a, e, l, ws) ==
     THEN [Viol(Hit(a, "C08.panic"), "C08.panic", l, e.ep, 0, e.msg) EXCEPT !.panicked[e.ep] = TRUE]
     ELSE IF e.t = "budget" /\ e.kind = "selfwake"
     THEN Viol(Hit(a, "C08.busy_loop"), "C08.busy_loop", l, e.ep, 0, e.task)
+    \* every run that reaches its end without a panic / busy loop exercised C08 (and offers C19's drop-time oracle)
+    ELSE IF e.t = "end"
+    THEN (IF ~a.panicked["c"] /\ ~a.panicked["s"] THEN Hit(Hit(a, "C08.run_without_panic"), "C19.run_observed") ELSE a)
     \* C19: h2's own debug assertion that the stream store is empty when it is dropped
     ELSE IF e.t = "drop_panic"
     THEN Viol(Hit(a, "C19.store_not_empty_at_drop"), "C19.store_not_empty_at_drop", l, "", 0, e.msg)
